@@ -75,7 +75,7 @@ class Check(Property):
     ID = "C04"
     PROPS_FILE = "PintModel/Props/C04.lean"
     MODULE = "PintModel.Props.C04"
-    EXTRA_LEAN_FILES = ["PintModel/Proofs/UCLemmas.lean"]
+    EXTRA_LEAN_FILES = ["PintModel/Proofs/UCLemmas.lean", "PintModel/Proofs/PiLemmas.lean"]
     RULE = ("containers over 3 unit names with exponents in {-2..2} (quick: all ordered pairs for * / == on "
             "UnitsContainer, sampled for the other layers and exponent types; thorough: all pairs on all 4 layers "
             "x 4 exponent types, sampled triples); non-trivial = distinct (layer, type, op, operands) whose result "
